@@ -145,10 +145,22 @@ def brief(e: dict[str, Any]) -> str:
 
 
 def ws_literal(t: str) -> bool:
-    """a non-reversed ==/!= item on a string variable whose literal contains whitespace"""
+    """an item on a string variable whose literal carries white space the string-constraint grammar strips or splits on
+    (class generic-literal-whitespace: that grammar has no quoting): any white space in an ==/!= literal; leading or
+    trailing white space, or white space other than a blank, in any literal (lists, reversed `in` / `not in`)"""
     import re
-    for name, op, lit in re.findall(r"""([A-Za-z_.]+)\s*(==|!=)\s*("[^"]*"|'[^']*')""", t):
-        if name not in ("python_version", "python_full_version", "platform_release", "extra") and re.search(r"\s", lit[1:-1]):
+    ver = ("python_version", "python_full_version", "extra")
+    for name, op, lit in re.findall(r"""([A-Za-z_.]+)\s*(==|!=|not\s+in|in)\s*("[^"]*"|'[^']*')""", t):
+        v = lit[1:-1]
+        if name in ver:
+            continue
+        if op in ("==", "!=") and name != "platform_release" and re.search(r"\s", v):
+            return True
+        if v != v.strip() or re.search(r"[^\S ]", v):
+            return True
+    for lit, op, name in re.findall(r"""("[^"]*"|'[^']*')\s*(not\s+in|in)\s*([A-Za-z_.]+)""", t):
+        v = lit[1:-1]
+        if name not in ver and (v != v.strip() or re.search(r"[^\S ]", v)):
             return True
     return False
 
